@@ -14,25 +14,26 @@ import (
 // path, resolving phis by the edge taken and loads of local cells by the last store on the path.
 
 type pathExec struct {
-	fn      *ssa.Function
-	oracle  func(pe *pathExec, cond ssa.Value) (val bool, known bool)
-	phi     map[*ssa.Phi]ssa.Value
-	mem     map[string]ssa.Value     // local memory: alloc/field cell -> last stored value on this path
-	vals    map[ssa.Value]ssa.Value  // loads evaluated at their execution point
-	ints    map[*ssa.Phi]int64       // integer phis folded to constants on this path
-	pints   map[*ssa.Parameter]int64 // integer parameters of inlined callees, folded at the call
-	lenOf   func(call *ssa.Call) (int64, bool)
-	intHook func(v ssa.Value) (int64, bool) // optional: concrete integer value of a parameter / call result
-	inline  func(callee *ssa.Function) bool // optional: static module callees to execute in place
-	tup     map[*ssa.Call][]ssa.Value       // results of inlined multi-result calls
-	start   *ssa.BasicBlock                 // optional: begin here instead of the entry block
-	stopAt  func(b *ssa.BasicBlock) bool    // optional: stop (successfully) when about to enter such a block
-	stopped *ssa.BasicBlock
-	path    []*ssa.BasicBlock
-	calls   []*ssa.Call // calls executed on the path, in order
-	maxStep int
-	visits  map[*ssa.BasicBlock]int
-	onInstr func(pe *pathExec, in ssa.Instruction)
+	fn        *ssa.Function
+	oracle    func(pe *pathExec, cond ssa.Value) (val bool, known bool)
+	phi       map[*ssa.Phi]ssa.Value
+	mem       map[string]ssa.Value     // local memory: alloc/field cell -> last stored value on this path
+	vals      map[ssa.Value]ssa.Value  // loads evaluated at their execution point
+	ints      map[*ssa.Phi]int64       // integer phis folded to constants on this path
+	pints     map[*ssa.Parameter]int64 // integer parameters of inlined callees, folded at the call
+	lenOf     func(call *ssa.Call) (int64, bool)
+	intHook   func(v ssa.Value) (int64, bool)                  // optional: concrete integer value of a parameter / call result
+	inline    func(callee *ssa.Function) bool                  // optional: static module callees to execute in place
+	dynCallee func(pe *pathExec, call *ssa.Call) *ssa.Function // optional: the callee of a dynamic call (a table of functions)
+	tup       map[*ssa.Call][]ssa.Value                        // results of inlined multi-result calls
+	start     *ssa.BasicBlock                                  // optional: begin here instead of the entry block
+	stopAt    func(b *ssa.BasicBlock) bool                     // optional: stop (successfully) when about to enter such a block
+	stopped   *ssa.BasicBlock
+	path      []*ssa.BasicBlock
+	calls     []*ssa.Call // calls executed on the path, in order
+	maxStep   int
+	visits    map[*ssa.BasicBlock]int
+	onInstr   func(pe *pathExec, in ssa.Instruction)
 	// optional: boolean results of an inlined callee are evaluated when it returns (while its parameters are still
 	// bound to this call's arguments) and replaced by the constant - a helper entered twice shares its SSA values
 	evalBoolResult func(v ssa.Value) (bool, bool)
@@ -209,7 +210,11 @@ func (pe *pathExec) exec(fn *ssa.Function, start *ssa.BasicBlock, depth int) (ss
 				}
 			case *ssa.Call:
 				pe.calls = append(pe.calls, t)
-				if callee := t.Call.StaticCallee(); callee != nil && callee.Blocks != nil && pe.inline != nil && depth < 3 && callee != fn && pe.inline(callee) {
+				callee := t.Call.StaticCallee()
+				if callee == nil && pe.dynCallee != nil {
+					callee = pe.dynCallee(pe, t)
+				}
+				if callee != nil && callee.Blocks != nil && pe.inline != nil && depth < 3 && callee != fn && pe.inline(callee) {
 					args := t.Call.Args
 					if len(args) == len(callee.Params) {
 						for i, prm := range callee.Params {
@@ -343,4 +348,156 @@ func (pe *pathExec) intOf(v ssa.Value, d int) (int64, bool) {
 		return pe.intOf(t.X, d+1)
 	}
 	return 0, false
+}
+
+// globalFuncTable: the functions held by a package-level array (or slice literal) of functions that is filled once,
+// by its initialiser, and never written again: index -> function. nil if g is not such a table.
+func (p *Prog) globalFuncTable(g *ssa.Global) map[int64]*ssa.Function {
+	if p.funcTables == nil {
+		p.funcTables = map[*ssa.Global]map[int64]*ssa.Function{}
+	}
+	if t, ok := p.funcTables[g]; ok {
+		return t
+	}
+	p.funcTables[g] = nil
+	var init *ssa.Function
+	if g.Pkg != nil {
+		init = g.Pkg.Func("init")
+	}
+	if init == nil {
+		return nil
+	}
+	// every use of g: one whole-value store in init; elsewhere only element reads g[i]
+	var whole *ssa.Store
+	clean := true
+	direct := map[int64]*ssa.Function{}
+	seenFn := map[*ssa.Function]bool{}
+	scan := func(f *ssa.Function) {
+		if seenFn[f] {
+			return
+		}
+		seenFn[f] = true
+		eachInstr(f, func(in ssa.Instruction) {
+			var ops []*ssa.Value
+			for _, op := range in.Operands(ops) {
+				if op == nil || *op != ssa.Value(g) {
+					continue
+				}
+				switch t := in.(type) {
+				case *ssa.Store:
+					if t.Addr == ssa.Value(g) && f == init && (whole == nil || whole == t) {
+						whole = t
+						continue
+					}
+					clean = false
+				case *ssa.IndexAddr:
+					for _, r := range *t.Referrers() {
+						// in the initialiser: the literal's elements stored in place
+						if st, ok := r.(*ssa.Store); ok && f == init && st.Addr == ssa.Value(t) {
+							k, isK := constInt(t.Index)
+							fv, isF := st.Val.(*ssa.Function)
+							if _, dup := direct[k]; isK && isF && !dup {
+								direct[k] = fv
+								continue
+							}
+						}
+						if ld, ok := r.(*ssa.UnOp); !ok || ld.Op != token.MUL {
+							clean = false
+						}
+					}
+				case *ssa.UnOp:
+					// a load of the whole table: its uses are not followed
+					clean = false
+				default:
+					clean = false
+				}
+			}
+		})
+	}
+	scan(init)
+	for _, f := range p.Funcs {
+		scan(f)
+		for _, af := range f.AnonFuncs {
+			scan(af)
+		}
+	}
+	if !clean {
+		return nil
+	}
+	if whole == nil {
+		if len(direct) == 0 {
+			return nil
+		}
+		p.funcTables[g] = direct
+		return direct
+	}
+	if len(direct) > 0 {
+		return nil
+	}
+	ld, ok := whole.Val.(*ssa.UnOp)
+	if !ok || ld.Op != token.MUL {
+		return nil
+	}
+	local, ok := ld.X.(*ssa.Alloc)
+	if !ok {
+		return nil
+	}
+	tab := map[int64]*ssa.Function{}
+	for _, r := range *local.Referrers() {
+		switch t := r.(type) {
+		case *ssa.IndexAddr:
+			k, isK := constInt(t.Index)
+			if !isK {
+				return nil
+			}
+			for _, r2 := range *t.Referrers() {
+				st, ok := r2.(*ssa.Store)
+				if !ok || st.Addr != ssa.Value(t) {
+					return nil
+				}
+				f, ok := st.Val.(*ssa.Function)
+				if !ok {
+					return nil
+				}
+				if _, dup := tab[k]; dup {
+					return nil
+				}
+				tab[k] = f
+			}
+		case *ssa.UnOp:
+			if t != ld {
+				return nil
+			}
+		default:
+			return nil
+		}
+	}
+	p.funcTables[g] = tab
+	return tab
+}
+
+// tableCallee: the function called by `table[i](...)` where table is a write-once package-level function table
+// and i folds to a constant on the current path.
+func (pe *pathExec) tableCallee(p *Prog, call *ssa.Call) *ssa.Function {
+	ld, ok := call.Call.Value.(*ssa.UnOp)
+	if !ok || ld.Op != token.MUL {
+		return nil
+	}
+	ia, ok := ld.X.(*ssa.IndexAddr)
+	if !ok {
+		return nil
+	}
+	g, ok := ia.X.(*ssa.Global)
+	if !ok {
+		return nil
+	}
+	tab := p.globalFuncTable(g)
+	if tab == nil {
+		return nil
+	}
+	k, ok := pe.intOf(ia.Index, 0)
+	if !ok {
+		return nil
+	}
+	return tab[k]
 }
